@@ -417,7 +417,6 @@ ssize_t recv(int fd, void* buf, size_t len, int flags)
             // the connection died with an error other than a reset (ETIMEDOUT: the peer vanished, EHOSTUNREACH, ...)
             int e = fr->second;
             s.fail_next_read.erase(fr);
-            ::shutdown(fd, SHUT_RDWR);
             errno = e;
             return -1;
         }
